@@ -14,8 +14,9 @@ CLASS_FILTER = {'C01': r'^LDG_', 'C02': r'^LUG_', 'C03': r'^L[DU]G_(VLabel|uint|
 STRONGER_THAN_PROPERTY = ()
 # bounded stand-ins (native, exhaustive up to the stated bound), run on every check of the property
 BOUNDED = {'C19': [('findAllVertexPredecessors#scans<=V+E', 'replay_findall',
-                     'every simple directed graph with <= 4 vertices and the first 400000 with 5, every source: '
-                     'neighbourhood scans counted through a graph type that shadows getOutNeighbours')]}
+                     'every simple directed graph with <= 4 vertices and the first 400000 with 5 (every source), ladders of '
+                     'completely connected layers of width 2-3 with up to 10 layers (every source), 20000 pseudo-random '
+                     'digraphs with 6-9 vertices: neighbourhood scans counted through a graph type that shadows getOutNeighbours')]}
 CODEC_UNITS = ('swapBytes', '_isSystemBigEndian', 'readBinaryValue', 'writeBinaryValue')
 
 
